@@ -1,5 +1,5 @@
 (* Single entry point of the executable models: function id + argument tree -> result tree. *)
-From PV Require Export Model.ComponentsX Model.EnginesX Model.SelectX.
+From PV Require Export Model.ComponentsX Model.EnginesX Model.SelectX Model.PolarX.
 From PV Require Model.RemoteJob.   (* not exported: its short names (step, run, status, ...) stay qualified *)
 
 Definition dispatch (f : Z) (x : sx) : sx :=
@@ -11,5 +11,8 @@ Definition dispatch (f : Z) (x : sx) : sx :=
   (* 1700 = the code as it is now (both C17 repairs are in /repo: fix commits 3528201e, a6e53956);
      1703 = the code before the repairs (kept for the _refuted theorems and their witnesses) *)
   | 1700 => RemoteJob.x_rj_patch x | 1701 => RemoteJob.x_rj_patch x | 1702 => RemoteJob.x_rj_spec x | 1703 => RemoteJob.x_rj_code x
+  (* 1300-1304: C13, the code as it is; 1310-1313: with the repairs proposed in known_findings.json *)
+  | 1310 => x_pol_unitary_g true x | 1311 => x_pol_convert_g true x | 1312 => x_pol_probs_g true x | 1313 => x_pol_spec_g true x
+  | 1300 => x_pol_unitary x | 1301 => x_pol_convert x | 1302 => x_pol_probs x | 1303 => x_pol_spec x | 1304 => x_labels x
   | _ => L []
   end%Z.
